@@ -70,6 +70,13 @@ def run(ck):
     from .c02 import fragments as _fr03
     from ..report import RuleView as _RV318
     _fr03(_RV318(ck, {"C03.18": "C03.18"}, not_constructs=(":length",)), "C03.18")      # the HitEnum walk reads label numbers, not lengths
+    ck.clause("C03.21", "the conflicting sub-run of a segment runs over unpaired labels up to the first PAIR beyond the window's end (as "
+                        "C15.4): cut at an unpaired label it is shorter than its partner's, the fallback removes only that piece and the two "
+                        "chained segments keep a label each - the record lists (93,33)(95,31) and the HitEnum does not replay")
+    if ck.wants("C03.21"):
+        from .c15 import slice_window as _sw03
+        from ..report import RuleView as _RV321
+        _sw03(_RV321(ck, {"C15.4": "C03.21"}))
     ck.clause("C03.19", "a record keeps the strand it was built on: records are made by AlignmentResultRow.create only (as C02.10 / C04.2) - "
                         "a copy made with the raw constructor that leaves reverseStrand to its default writes Orientation '+' over pairs "
                         "that descend in the query, and the HitEnum walked in that direction does not give the listed pairs")
@@ -350,3 +357,12 @@ def run(ck):
                 ck.violation("C03.5", short(gen) + ":cursor-in-loop", where(gen, n2), "the query cursor is updated inside the insertion "
                              "loop (direction-dependent: wrong end of the gap on the reverse strand)", found=_ast.unparse(n2),
                              required="previousQuery = currentPair.query.siteId after the run")
+    # (listed last: what this borrowed rule cannot read must not keep the property's own rules from reporting)
+    ck.clause("C03.20", "a joined record is handed back only if it is collinear (as C01.20): the HitEnum of a record whose query label numbers "
+                        "jump back (`10M18I20D10M`) does not replay to the listed pairs")
+    if ck.wants("C03.20"):
+        from .c01 import joined_is_collinear as _jic03
+        from ..report import RuleView as _RV320
+        _jic03(_RV320(ck, {"C01.20": "C03.20"}), "C01.20")
+
+
